@@ -28,7 +28,7 @@ func init() {
 		Assumptions: []string{
 			"the responder table in c08Model is the reading of SEMI E37/E37.1 given in the property statement",
 			"a duplicate Select.rsp that races the closing of the library's own Select transaction may be either discarded or answered Reject(3); both are accepted for that one frame",
-			"reject frames are compared on reason, offending type byte and system bytes; responses on status and system bytes",
+			"reject frames are compared on reason, offending type byte and system bytes; responses on status, system bytes, session id (the request's; 0xFFFF for Linktest.rsp whatever the request carried) and header byte 2 = 0",
 		},
 		Phases: func(tier string) []fw.Phase {
 			return []fw.Phase{{Name: "responder", Race: true, Shards: 16, Timeout: tierDur(tier, 6, 40), HangIsViolation: true}}
@@ -46,6 +46,8 @@ type c08Exp struct {
 	Sys      uint32
 	Data     bool // an outbound DATA frame (S9F1) is expected; only stream/function compared
 	Optional bool // may be absent (documented race)
+	SessSet  bool   // responses: the session id the response must carry (the request's; 0xFFFF for Linktest.rsp)
+	Sess     uint16
 	Why      string
 }
 
@@ -94,19 +96,19 @@ func (m *c08Model) feed(f peer.Frame) []c08Exp {
 	case peer.STSelectReq:
 		if !m.selected {
 			m.selected = true
-			return []c08Exp{{SType: peer.STSelectRsp, B3: 0, Sys: f.Sys, Why: "first select"}}
+			return []c08Exp{{SType: peer.STSelectRsp, B3: 0, Sys: f.Sys, SessSet: true, Sess: f.Session, Why: "first select"}}
 		}
 
-		return []c08Exp{{SType: peer.STSelectRsp, B3: 1, Sys: f.Sys, Why: "already selected"}}
+		return []c08Exp{{SType: peer.STSelectRsp, B3: 1, Sys: f.Sys, SessSet: true, Sess: f.Session, Why: "already selected"}}
 	case peer.STDeselectReq:
 		if m.selected {
 			m.selected = false
-			return []c08Exp{{SType: peer.STDeselectRsp, B3: 0, Sys: f.Sys, Why: "deselect while selected"}}
+			return []c08Exp{{SType: peer.STDeselectRsp, B3: 0, Sys: f.Sys, SessSet: true, Sess: f.Session, Why: "deselect while selected"}}
 		}
 
-		return []c08Exp{{SType: peer.STDeselectRsp, B3: 1, Sys: f.Sys, Why: "deselect while not selected"}}
+		return []c08Exp{{SType: peer.STDeselectRsp, B3: 1, Sys: f.Sys, SessSet: true, Sess: f.Session, Why: "deselect while not selected"}}
 	case peer.STLinktestReq:
-		return []c08Exp{{SType: peer.STLinktestRsp, Sys: f.Sys, Why: "linktest"}}
+		return []c08Exp{{SType: peer.STLinktestRsp, Sys: f.Sys, SessSet: true, Sess: 0xFFFF, Why: "linktest"}}
 	case peer.STSelectRsp, peer.STDeselectRsp, peer.STLinktestRsp:
 		if m.openSelect && f.Sys == m.selectSys {
 			// the library's own Select transaction is completed by ANY control response carrying its system bytes
@@ -165,11 +167,13 @@ func c08GenFrame(r *rand.Rand, m *c08Model, sysCtr *uint32) peer.Frame {
 	*sysCtr++
 	sys := uint32(0x10000000) | *sysCtr<<8 | uint32(r.IntN(256))
 	sess := uint16(c08Session)
-	switch r.IntN(5) {
+	switch r.IntN(6) {
 	case 0:
 		sess = 0xFFFF
 	case 1:
 		sess = uint16(r.IntN(65536))
+	case 2:
+		sess = c08Session ^ 1<<r.IntN(16) // differs from the configured id in exactly one bit (any of the 16)
 	}
 	body := func() []byte {
 		switch r.IntN(4) {
@@ -200,6 +204,10 @@ func c08GenFrame(r *rand.Rand, m *c08Model, sysCtr *uint32) peer.Frame {
 	case k < 32:
 		return peer.Control(peer.STDeselectReq, sess, 0, byte(r.IntN(2)*r.IntN(256)), sys)
 	case k < 40:
+		if r.IntN(2) == 0 {
+			return peer.Control(peer.STLinktestReq, sess, 0, 0, sys) // a session id other than 0xFFFF: the answer still carries 0xFFFF
+		}
+
 		return peer.Control(peer.STLinktestReq, 0xFFFF, 0, 0, sys)
 	case k < 58:
 		return data()
@@ -586,7 +594,8 @@ func c08Compare(env *fw.Env, cs c08Case, exp []c08Exp, got []peer.Frame, m *c08M
 		if e.Data {
 			match = g.IsData() && g.Stream() == e.B2 && g.Function() == e.B3
 		} else {
-			match = g.PType == 0 && g.SType == e.SType && g.Sys == e.Sys && g.B3 == e.B3 && (e.SType != peer.STRejectReq || g.B2 == e.B2)
+			match = g.PType == 0 && g.SType == e.SType && g.Sys == e.Sys && g.B3 == e.B3 && (e.SType != peer.STRejectReq || g.B2 == e.B2) &&
+				(!e.SessSet || (g.Session == e.Sess && g.B2 == 0))
 		}
 		if !match {
 			if e.Optional {
